@@ -7,6 +7,8 @@ import (
 	"fmt"
 	"os"
 	"runtime"
+	"runtime/debug"
+	"strings"
 	"sync"
 
 	"verifmon/internal/evid"
@@ -64,7 +66,46 @@ func Parse(levels map[string]string) (*Opts, *evid.Run) {
 		only = *onlyFlag
 	}
 	run.Only = only
+	current = run
 	return o, run
+}
+
+var current *evid.Run
+
+// Guard runs fn and turns a panic that ORIGINATES in the repository under observation (first project frame below the
+// panic is a worldcoin/gnark-mbu function) into a violation of the property being decided: a library call that panics
+// did not do what the property says. A panic that originates in the monitor itself is a monitor bug and is re-raised.
+// The replay key is empty: the replay re-runs the whole tier with the same seed.
+func Guard(where string, fn func()) {
+	defer func() {
+		p := recover()
+		if p == nil {
+			return
+		}
+		stack := string(debug.Stack())
+		origin := ""
+		after := stack
+		if i := strings.Index(stack, "\npanic("); i >= 0 {
+			after = stack[i+1:]
+		}
+		for _, line := range strings.Split(after, "\n") {
+			if strings.HasPrefix(line, "\t") || strings.HasPrefix(line, "panic(") || strings.HasPrefix(line, "runtime.") {
+				continue
+			}
+			if strings.HasPrefix(line, "worldcoin/gnark-mbu") || strings.HasPrefix(line, "verifmon/") || strings.HasPrefix(line, "main.") {
+				origin = line
+				break
+			}
+		}
+		if current == nil || !strings.HasPrefix(origin, "worldcoin/gnark-mbu") {
+			panic(fmt.Sprintf("%v\n%s", p, stack))
+		}
+		if len(stack) > 3000 {
+			stack = stack[:3000]
+		}
+		current.Violate("", fmt.Sprintf("the code under observation PANICKED in %s (%s): %v", origin, where, p), map[string]any{"stack": stack})
+	}()
+	fn()
 }
 
 func (o *Opts) Thorough() bool { return o.Tier == "thorough" }
@@ -92,7 +133,8 @@ func ForEach(n, workers int, fn func(i int)) {
 		go func() {
 			defer wg.Done()
 			for i := range ch {
-				fn(i)
+				i := i
+				Guard(fmt.Sprintf("parallel case %d", i), func() { fn(i) })
 			}
 		}()
 	}
